@@ -316,7 +316,32 @@ func vrCheckCopy(i Index) string {
 	return ""
 }
 
+// error documents (C15): each constructor yields its registered code
+func vrErrCodes() string {
+	want := map[string]ErrorInfo{
+		"BLOB_UNKNOWN": ErrInfoBlobUnknown("d"), "BLOB_UPLOAD_INVALID": ErrInfoBlobUploadInvalid("d"), "BLOB_UPLOAD_UNKNOWN": ErrInfoBlobUploadUnknown("d"),
+		"DIGEST_INVALID": ErrInfoDigestInvalid("d"), "MANIFEST_BLOB_UNKNOWN": ErrInfoManifestBlobUnknown("d"), "MANIFEST_INVALID": ErrInfoManifestInvalid("d"),
+		"MANIFEST_UNKNOWN": ErrInfoManifestUnknown("d"), "NAME_INVALID": ErrInfoNameInvalid("d"), "NAME_UNKNOWN": ErrInfoNameUnknown("d"),
+		"SIZE_INVALID": ErrInfoSizeInvalid("d"), "UNAUTHORIZED": ErrInfoUnauthorized("d"), "DENIED": ErrInfoDenied("d"), "UNSUPPORTED": ErrInfoUnsupported("d"),
+		"TOOMANYREQUESTS": ErrInfoTooManyRequests("d"),
+	}
+	for code, e := range want {
+		if e.Code != code || e.Detail != "d" {
+			return fmt.Sprintf("the error constructor for %s returns code %q (message %q)", code, e.Code, e.Message)
+		}
+	}
+	return ""
+}
+
 func TestVerifReplay(t *testing.T) {
+	if strings.Contains(os.Getenv("VERIF_OBLIGATION"), ".ErrInfo") {
+		if msg := vrErrCodes(); msg != "" {
+			fmt.Printf("REPLAY-FAIL: %s\n", msg)
+			t.Fatalf("property violated on the real code")
+		}
+		fmt.Printf("REPLAY-NONE: error constructors checked\n")
+		return
+	}
 	depth := 7
 	if v, err := strconv.Atoi(os.Getenv("VERIF_REPLAY_DEPTH")); err == nil {
 		depth = v
